@@ -9,10 +9,10 @@ namespace Pdb.Conc.Pipe
 def rankE : ETail → Nat
   | .e1 => 3 | .e2 => 2 | .e3 => 1
 def rankL : LPc → Bool → Nat
-  | .init, _ => 31 | .write1 _, _ => 30 | .write2 _, _ => 17
-  | .reindex, true => 16 | .loop, true => 15 | .waitL, _ => 15 | .lqAbout, _ => 15
+  | .init, _ => 33 | .write1 _, _ => 32 | .write2 _, _ => 19
+  | .reindex, true => 18 | .reClear, true => 17 | .loop, true => 15 | .waitL, _ => 15 | .lqAbout, _ => 15
   | .thr, _ => 14 | .lqParked, _ => 14 | .pop, _ => 13
-  | .reindex, false => 2 | .loop, false => 1
+  | .reindex, false => 3 | .reClear, false => 2 | .loop, false => 1
   | .err e, _ => rankE e | .done, _ => 0
 def rankF : FPc → Nat
   | .waitF => 14 | .flOne => 13 | .flSignal => 3 | .loop => 1 | .err e => rankE e | .done => 0
@@ -26,9 +26,6 @@ def rankK : KPc → Bool → Nat
   | .err e, _ => rankE e | .done, _ => 0
 
 def lenSum (l : List (List Nat)) : Nat := sum (l.map List.length)
-def optLen : Option (List Nat) → Nat
-  | some f => f.length
-  | none => 0
 def optOne : Option (List Nat) → Nat
   | some _ => 1
   | none => 0
@@ -90,7 +87,9 @@ theorem measure_tickL {cfg : Cfg} (hF : Fixed cfg) {s s' : St} (hG : G1 s) (hD :
   cases hmc : s.moreCommits <;> rw [hmc] at h
   all_goals
     split at h
-    · split at h <;> mfin
+    · split at h
+      · split at h <;> mfin
+      · mfin
     · split at h
       · split at h <;> mfin
       · mfin
@@ -106,7 +105,10 @@ theorem measure_tickL {cfg : Cfg} (hF : Fixed cfg) {s s' : St} (hG : G1 s) (hD :
       · mfin
     · mfin
     · mfin
-    · split at h <;> mfin
+    · split at h
+      · split at h <;> mfin
+      · mfin
+    · mfin
     · rename_i e hp
       obtain ⟨⟨s1, n⟩, he, hs⟩ := map_some h
       subst hs
